@@ -13,6 +13,11 @@
 //	     the REAL getSortedProducers / getSortedProducersDposV2 on a state holding these producers, called
 //	     reps times (fresh map, different insertion order each time).  Output: the node keys in order, or
 //	     "unstable" when two repetitions disagree.
+//	crchange <a> <b> <o>
+//	     the REAL Committee.ProcessBlock of a committee-change block, then Committee + DPoS State.ProcessBlock of the
+//	     next block carrying the elected member's (owner key o…) current-term claim of node key b… (it had claimed a…
+//	     for the new term), then six blocks without a block from that node; run once plainly and once with an extra
+//	     slow subscriber of the committee-change event.  Output (of the slow run): ownerB=<owner|none> inactive=<bool>.
 //	crmembers <reps> <did,...>
 //	     the REAL Committee.GetAllMembersCopy on a committee holding these members, reps times on freshly built
 //	     maps: the DIDs in the returned order, or "unstable".
@@ -44,6 +49,7 @@ import (
 	"strings"
 	"sync"
 	"sync/atomic"
+	"time"
 
 	"elaverif/harness/hx"
 	"elaverif/harness/regnet"
@@ -51,10 +57,15 @@ import (
 	"github.com/elastos/Elastos.ELA/common"
 	"github.com/elastos/Elastos.ELA/common/config"
 	"github.com/elastos/Elastos.ELA/core/checkpoint"
-	crstate "github.com/elastos/Elastos.ELA/cr/state"
+	"github.com/elastos/Elastos.ELA/core/transaction"
 	"github.com/elastos/Elastos.ELA/core/types"
 	common2 "github.com/elastos/Elastos.ELA/core/types/common"
+	"github.com/elastos/Elastos.ELA/core/types/functions"
+	"github.com/elastos/Elastos.ELA/core/types/interfaces"
+	"github.com/elastos/Elastos.ELA/core/types/payload"
+	crstate "github.com/elastos/Elastos.ELA/cr/state"
 	"github.com/elastos/Elastos.ELA/dpos/state"
+	"github.com/elastos/Elastos.ELA/events"
 )
 
 func atoi(s string) int {
@@ -459,6 +470,119 @@ func execSnap(t []string) string {
 	return "isolated"
 }
 
+// ---- committee change followed by a council member's claim of a new DPoS node (seeded/C24-7's scenario)
+
+var slowOnce sync.Once
+var slowGate chan struct{} // nil: the slow subscriber lets the notification through at once
+
+func key33(b byte) []byte {
+	k := make([]byte, 33)
+	k[0] = 0x02
+	for i := 1; i < 33; i++ {
+		k[i] = b
+	}
+	return k
+}
+
+// crChangeRun: the real Committee.ProcessBlock of a committee-change block (height 100), then both ProcessBlocks of
+// block 101 carrying the elected member's current-term CRCouncilMemberClaimNode for node key B, then
+// MaxInactiveRounds+1 blocks sponsored by another arbiter while B is an arbiter.  With slow == true one extra event
+// subscriber (registered ahead of the DPoS state) holds the committee-change notification back until block 101 is
+// connected (at most 300 ms) — harmless when the notification is delivered synchronously.
+// Result: the owner the DPoS state resolves node key B to, and whether the member was set inactive.
+func crChangeRun(a, b, o byte, slow bool) string {
+	slowOnce.Do(func() {
+		events.Subscribe(func(e *events.Event) {
+			if e.Type == events.ETCRCChangeCommittee {
+				if g := slowGate; g != nil {
+					select {
+					case <-g:
+					case <-time.After(300 * time.Millisecond):
+					}
+				}
+			}
+		})
+	})
+	ownerPub, nodeA, nodeB, other := key33(o), key33(a), key33(b), key33(0xc3)
+	did := common.Uint168{0x67, 1, 2, 3}
+	params := config.GetDefaultParams()
+	params.CRCOnlyDPOSHeight = 5
+	params.PublicDPOSHeight = 10
+	params.DPoSV2StartHeight = 20
+	params.CRConfiguration.CRVotingStartHeight = 1
+	params.CRConfiguration.CRCommitteeStartHeight = 100
+	params.CRConfiguration.CRClaimDPOSNodeStartHeight = 30
+	params.CRConfiguration.ChangeCommitteeNewCRHeight = 40
+	params.DPoSConfiguration.MaxInactiveRounds = 5
+	committee := crstate.NewCommittee(params, checkpoint.NewManager(params))
+	committee.NextMembers[did] = &crstate.CRMember{
+		Info:        payload.CRInfo{Code: append(append([]byte{33}, ownerPub...), 0xac), DID: did, CID: common.Uint168{0x1b, 1, 2, 3}, NickName: "member"},
+		MemberState: crstate.MemberElected, DPOSPublicKey: nodeA,
+	}
+	committee.NextClaimedDPoSKeys[hex.EncodeToString(nodeA)] = struct{}{}
+	var arbiters []*state.ArbiterInfo
+	dpos := state.NewState(params,
+		func() []*state.ArbiterInfo { return arbiters },
+		committee.GetCurrentMembers, committee.GetNextMembers, committee.IsInElectionPeriod,
+		func(common.Uint168) (common.Fixed64, error) { return 0, nil },
+		committee.TryUpdateCRMemberInactivity, committee.TryRevertCRMemberInactivity,
+		committee.TryUpdateCRMemberIllegal, committee.TryRevertCRMemberIllegal,
+		committee.UpdateCRInactivePenalty, committee.RevertUpdateCRInactivePenalty)
+	dpos.NextCRNodeOwnerKeys[hex.EncodeToString(nodeA)] = hex.EncodeToString(ownerPub)
+	blk := func(h uint32, txs ...interfaces.Transaction) *types.Block {
+		return &types.Block{Header: common2.Header{Height: h, Timestamp: 1600000000 + h}, Transactions: txs}
+	}
+	connect := func(b *types.Block, sponsor []byte) {
+		committee.ProcessBlock(b, nil)
+		dpos.ProcessBlock(b, sponsor, 0)
+	}
+	var gate chan struct{}
+	if slow {
+		gate = make(chan struct{})
+	}
+	slowGate = gate
+	defer func() { slowGate = nil }()
+	connect(blk(98), nil)
+	connect(blk(99), nil)
+	connect(blk(100), nil) // the committee changes here
+	claim := functions.CreateTransaction(common2.TxVersion09, common2.CRCouncilMemberClaimNode, payload.CurrentCRClaimDPoSNodeVersion,
+		&payload.CRCouncilMemberClaimNode{NodePublicKey: nodeB, CRCouncilCommitteeDID: did},
+		[]*common2.Attribute{}, []*common2.Input{}, []*common2.Output{}, 0, nil)
+	connect(blk(101, claim), nil)
+	if gate != nil {
+		close(gate)
+		time.Sleep(20 * time.Millisecond) // let a notifier goroutine (if the delivery is asynchronous) finish
+	}
+	arbiters = []*state.ArbiterInfo{
+		{NodePublicKey: nodeB, IsNormal: true, IsCRMember: true, ClaimedDPOSNode: true},
+		{NodePublicKey: other, IsNormal: true},
+	}
+	for i := uint32(0); i < 6; i++ {
+		connect(blk(102+i), other)
+	}
+	owner := dpos.CurrentCRNodeOwnerKeys[hex.EncodeToString(nodeB)]
+	if owner == "" {
+		owner = "none"
+	} else {
+		owner = owner[:4]
+	}
+	inactive := false
+	for _, m := range committee.GetCurrentMembers() {
+		if m.Info.DID.IsEqual(did) && m.MemberState == crstate.MemberInactive {
+			inactive = true
+		}
+	}
+	return fmt.Sprintf("ownerB=%s inactive=%v", owner, inactive)
+}
+
+var lastCRPlain string
+
+func execCRChange(t []string) string {
+	a, b, o := byte(atoi(t[1])), byte(atoi(t[2])), byte(atoi(t[3]))
+	lastCRPlain = crChangeRun(a, b, o, false)
+	return crChangeRun(a, b, o, true)
+}
+
 func didOf(hexs string) common.Uint168 {
 	var d common.Uint168
 	copy(d[:], hx.UnHex(hexs))
@@ -497,6 +621,8 @@ func execCRMembers(t []string) string {
 
 func exec(t []string) string {
 	switch t[0] {
+	case "crchange":
+		return execCRChange(t)
 	case "crmembers":
 		return execCRMembers(t)
 	case "snap":
@@ -570,6 +696,14 @@ func exec(t []string) string {
 // undisturbed private generator seeded from the block hash draws first.
 func oracle(t []string, out string) *hx.Violation {
 	switch t[0] {
+	case "crchange":
+		// the same chain data (committee change, claim of node B, six blocks without a block from B) must give the same
+		// CR node-owner keys and the same member state however long an event subscriber takes
+		if out != lastCRPlain {
+			return &hx.Violation{Kind: "arbiter-set-depends-on-event-timing",
+				Detail: fmt.Sprintf("with a slow (<= 300 ms) subscriber of the committee-change event: %s; without it: %s — the claim of node B made in block 101 is lost when the notification is delivered late, the member is never set inactive and its CRC arbiter stays a normal arbiter of the next set", out, lastCRPlain)}
+		}
+		return nil
 	case "crmembers":
 		if out == "unstable" {
 			return &hx.Violation{Kind: "council-member-order-depends-on-map-order",
@@ -663,6 +797,10 @@ func oracle(t []string, out string) *hx.Violation {
 }
 
 func gen(g *hx.Gen) {
+	for i := 0; i < g.N(3, 12); i++ {
+		a, b, o := 0xa1+g.R.Intn(8), 0xb1+g.R.Intn(8), 0x11+g.R.Intn(8)
+		g.Emit("crchange %d %d %d", a, b, o)
+	}
 	for i := 0; i < g.N(60, 600); i++ {
 		n := 2 + g.R.Intn(11)
 		var ds []string
@@ -859,5 +997,9 @@ func nontrivial(t []string, out string) bool {
 }
 
 func main() {
+	functions.GetTransactionByTxType = transaction.GetTransaction
+	functions.GetTransactionByBytes = transaction.GetTransactionByBytes
+	functions.CreateTransaction = transaction.CreateTransaction
+	functions.GetTransactionParameters = transaction.GetTransactionparameters
 	hx.Main(&hx.Prop{Name: "C24", Gen: gen, Exec: exec, Oracle: oracle, Nontrivial: nontrivial})
 }
